@@ -93,6 +93,26 @@ Proof. exact round_up_to_word_bytes_spec. Qed.
 Theorem C17_split_offset : forall m bo, bo < 2 ^ 64 ->
   let '(i, o) := split_offset bo in f_bit_offset m i o = Ok bo /\ o < 64 /\ bo = 64 * i + o.
 Proof. exact bit_offset_split. Qed.
+Theorem C17_words_to_bytes : forall m n,
+  f_words_to_bytes m n =
+    if n * 8 <? 2 ^ 64 then Ok (n * 8)
+    else match m with Debug => Panic POverflow | Release => Ok ((n * 8) mod 2 ^ 64) end.
+Proof. exact words_to_bytes_total. Qed.
+Theorem C17_words_to_bits : forall m n,
+  f_words_to_bits m n =
+    if n * 64 <? 2 ^ 64 then Ok (n * 64)
+    else match m with Debug => Panic POverflow | Release => Ok ((n * 64) mod 2 ^ 64) end.
+Proof. exact words_to_bits_total. Qed.
+Theorem C17_words_bits_words : forall m n,
+  n * 64 + 63 < 2 ^ 64 -> bind (f_words_to_bits m n) (f_bits_to_words m) = Ok n.
+Proof. exact words_bits_words. Qed.
+Theorem C17_words_bytes_words : forall m n,
+  n * 8 + 7 < 2 ^ 64 -> bind (f_words_to_bytes m n) (f_bytes_to_words m) = Ok n.
+Proof. exact words_bytes_words. Qed.
+Print Assumptions C17_words_to_bytes.
+Print Assumptions C17_words_to_bits.
+Print Assumptions C17_words_bits_words.
+Print Assumptions C17_words_bytes_words.
 Print Assumptions C17_bit_len.
 Print Assumptions C17_reverse_low.
 Print Assumptions C17_div_round_up.
